@@ -14,6 +14,7 @@ import (
 	"slices"
 	"strings"
 	"sync"
+	"sync/atomic"
 	"testing"
 	"testing/synctest"
 
@@ -440,6 +441,13 @@ type pending struct {
 	released bool
 }
 
+var freshCounter int64
+
+// freshID returns a JSON-RPC id token that no generated envelope uses (unique per process).
+func freshID() string {
+	return fmt.Sprint(1_000_000 + atomic.AddInt64(&freshCounter, 1))
+}
+
 // steer applies the open known-findings exclusions to a script by construction.
 func steer(e *Env, inflight map[string]bool, version string) {
 	if vt.Open("F1") && e.ID != "" && !strings.HasPrefix(e.ID, `"`) {
@@ -461,6 +469,7 @@ func steer(e *Env, inflight map[string]bool, version string) {
 }
 
 func runNDJSON(s Script) (res vt.Result) {
+	atomic.StoreInt64(&freshCounter, 0) // fresh ids are a function of the script
 	g := &gates{}
 	server := newServer(g)
 	a, b := memio.NewPipe()
@@ -632,13 +641,13 @@ func runNDJSON(s Script) (res vt.Result) {
 					if isBatch && (seenInBatch[tok] || inflight[tok]) {
 						// two calls with one id inside a batch / batch re-using an in-flight id: not generated
 						// (the reader rejects the whole payload and ends the session; recorded in DESIGN.md).
-						e.ID = fmt.Sprintf("%d", 100000+i*10+j)
+						e.ID = freshID()
 						tok = e.ID
 					}
 					if inflight[tok] && ex.response && !parkedTok(tok) {
 						// The original is only awaiting a deferred batch/JSON reply: whether the server still
 						// counts it as in flight is unobservable, so this shape is not generated.
-						e.ID = fmt.Sprintf("%d", 300000+step*10+j)
+						e.ID = freshID()
 						tok = e.ID
 					}
 					if inflight[tok] && ex.response {
@@ -646,7 +655,7 @@ func runNDJSON(s Script) (res vt.Result) {
 						// that id, without touching the original.
 						if vt.Open("F4") {
 							vt.Excluded("F4")
-							e.ID = fmt.Sprintf("%d", 200000+i*10+j)
+							e.ID = freshID()
 							tok = e.ID
 						} else {
 							ex = expect{response: true, codes: []int{-32600}, class: "inflight_id_reuse"}
